@@ -31,6 +31,8 @@ func c09(c *Ctx) {
 	c09untouchedPath(c)
 	c09ownedVars(c)
 	c09defaultNotAllowed(c)
+	// R13 (round 8): the variables reach the handler's struct through httpx.ParsePath — the adapters' pass-through rule (C08.R10)
+	runShared(c, "C08.R10", "C09.R13", c08adapters)
 }
 
 func strConst(p *px.Path, s *px.Sym) (string, bool) {
